@@ -30,6 +30,7 @@ def run(chk):
     chk.rule('C13-R2', 'kernels on the calc_power path: every store under prange is iteration-, thread- or cursor-private', 8)
     chk.rule('C13-R4', 'the in-place normalisation passes (normalize_field, _normalize) update every cell of the mesh', 2)
     chk.rule('C13-R5', 'get_raw_power is the Hermitian product: the cross branch with field2 = field equals the auto branch, and a common phase factor (a whole-cell translation of both fields) cancels', 2)
+    chk.rule('C13-R6', 'the second field goes through the same transform as the first: the two get_field_fft calls bind every parameter alike, up to (pos, w) <-> (pos2, w2); no two same-named arguments are crossed at a call on the path', 2)
     chk.assume('termination-insensitive: a raise/assert that depends on the particles is not counted as a dependence of the outputs')
     chk.assume('library calls (rfftn, numpy) are modelled as: result values and shape depend on the values and shapes of all arguments')
     chk.assume('permutation / translation / cross=auto invariance are not decided (numerical identities of the pipeline)')
@@ -132,6 +133,7 @@ def run(chk):
                 chk.check(verdict == 'PROVEN', 'C13-R4', PS, q, f'loop over {X} covers the flattened field', detail, detail, node=lp)
     # ---- R5: estimator-level identities over complex algebra (a = ar + i ai, b = br + i bi as exact polynomials)
     _raw_power(chk, src)
+    _siblings(chk, src)
 
 
 def _raw_power(chk, src):
@@ -264,3 +266,55 @@ def _raw_power(chk, src):
     ok2 = cross is not None and reduce(cross_rot[0] - cross[0]) == Z and reduce(auto_rot[0] - auto[0]) == Z
     chk.check(ok2, 'C13-R5', PS, 'get_raw_power', 'a phase factor common to both fields cancels (whole-cell translations leave every mode power unchanged)', '',
               f'the mode power changes under a common phase: cross = {cross[0] if cross else None}: translating all particles by whole cells would change the estimate', node=fn)
+
+
+# --------------------------------------------------------------------------- R6
+def _bind(call, callee):
+    """parameter name -> argument text of a call, through the callee's signature (None when it cannot be bound)."""
+    params = [a.arg for a in callee.args.posonlyargs + callee.args.args]
+    if any(isinstance(a, ast.Starred) for a in call.args) or any(k.arg is None for k in call.keywords) or len(call.args) > len(params):
+        return None
+    b = {p: unparse(a) for p, a in zip(params, call.args)}
+    for k in call.keywords:
+        if k.arg in b:
+            return None
+        b[k.arg] = unparse(k.value)
+    return b
+
+
+def _siblings(chk, src):
+    fn = src.func(PS, 'calc_power')
+    callee = src.func(PS, 'get_field_fft')
+    calls = [n for n in walk_no_nested(fn) if isinstance(n, ast.Call) and dotted(n.func) == 'get_field_fft']
+    if len(calls) == 2:
+        b1, b2 = _bind(calls[0], callee), _bind(calls[1], callee)
+        if b1 is None or b2 is None:
+            chk.unknown('C13-R6', PS, 'calc_power', 'both fields transformed alike', 'a get_field_fft call cannot be bound to the signature', node=calls[0])
+        else:
+            import re
+            sub = lambda t: re.sub(r'\bw\b', 'w2', re.sub(r'\bpos\b', 'pos2', t))
+            diff = [p for p in sorted(set(b1) | set(b2)) if sub(b1.get(p, '<default>')) != b2.get(p, '<default>')]
+            chk.check(not diff, 'C13-R6', PS, 'calc_power', 'both fields transformed alike', f'{len(b1)} parameters bound alike',
+                      'the second field is transformed differently from the first: ' + '; '.join(f'{p}: {b1.get(p, "<default>")} vs {b2.get(p, "<default>")}' for p in diff[:4]) +
+                      ': with pos2 = pos the cross spectrum is no longer the auto spectrum', node=calls[1])
+    else:
+        chk.assumed('C13-R6', PS, 'calc_power', 'both fields transformed alike', f'{len(calls)} get_field_fft call(s): not the two-call form', node=fn)
+    # crossed same-named arguments on the path (argument named like parameter j passed for parameter i and vice versa)
+    crossed, ncalls = [], 0
+    for q in ('calc_power', 'get_field_fft', 'get_interlaced_field_fft', 'get_field', 'calc_pk_from_deltak'):
+        if not src.has_func(PS, q):
+            continue
+        f = src.func(PS, q)
+        for c in walk_no_nested(f):
+            cn = dotted(c.func) if isinstance(c, ast.Call) else None
+            if not cn or '.' in cn or not src.has_func(PS, cn) or cn not in src.functions(PS):
+                continue
+            b = _bind(c, src.func(PS, cn))
+            if b is None:
+                continue
+            ncalls += 1
+            for p, a in b.items():
+                if a != p and a in b and b[a] == p:
+                    crossed.append((q, c, p, a))
+    chk.check(not crossed, 'C13-R6', PS, 'calc_power', 'no crossed same-named arguments on the calc_power path', f'{ncalls} calls bound to their signatures',
+              '; '.join(f'{q} line {src.orig_line_of(PS, c)}: {dotted(c.func)} receives {a} as {p} and {p} as {a}' for q, c, p, a in crossed[:2]), node=crossed[0][1] if crossed else fn)
